@@ -2,6 +2,8 @@ package rules
 
 import (
 	"fmt"
+	"go/token"
+	"go/types"
 	"strings"
 
 	. "abverif/internal/engine"
@@ -486,6 +488,60 @@ func (c *Ctx) structField(hv hVal, field int, depth int) (hVal, bool) {
 			return *found, true
 		}
 	case *ssa.UnOp:
+		// a copy taken at this point (a method value of a value receiver binds
+		// the struct as it is now): only what was stored before counts
+		if a, isA := x.X.(*ssa.Alloc); isA && x.Op == token.MUL && a.Referrers() != nil {
+			var found *hVal
+			n := 0
+			for _, ref := range *a.Referrers() {
+				switch r := ref.(type) {
+				case *ssa.FieldAddr:
+					if r.Field != field || r.Referrers() == nil {
+						continue
+					}
+					for _, rr := range *r.Referrers() {
+						st, ok := rr.(*ssa.Store)
+						if !ok || st.Addr != ssa.Value(r) {
+							continue
+						}
+						switch {
+						case InstrDominates(st, x):
+							found = &hVal{st.Val, hv.env}
+							n++
+						case InstrDominates(x, st):
+							// assigned after the copy was taken: not part of it
+						default:
+							n += 2 // unordered: cannot tell
+						}
+					}
+				case *ssa.Store:
+					if r.Addr == ssa.Value(a) {
+						switch {
+						case InstrDominates(r, x):
+							if fv, ok := c.structField(hVal{r.Val, hv.env}, field, depth+1); ok {
+								found = &fv
+								n++
+							}
+						case InstrDominates(x, r):
+						default:
+							n += 2
+						}
+					}
+				}
+			}
+			if n == 1 {
+				return *found, true
+			}
+			if n == 0 {
+				// never assigned before the copy: the zero value
+				if pt, isP := a.Type().Underlying().(*types.Pointer); isP {
+					if st, isS := pt.Elem().Underlying().(*types.Struct); isS && field < st.NumFields() {
+						return hVal{ssa.NewConst(nil, st.Field(field).Type()), hv.env}, true
+					}
+				}
+			}
+			return hVal{}, false
+		}
 		return c.structField(hVal{x.X, hv.env}, field, depth+1)
 	case *ssa.MakeInterface:
 		return c.structField(hVal{x.X, hv.env}, field, depth+1)
